@@ -284,6 +284,10 @@ impl SemaphoreState {
                 // of the waiter list
                 unsafe { self.force_remove_waiter(wait_node) };
                 wait_node.state = PollState::Done;
+                // The removed waiter might have been the oldest one, which
+                // blocked waiters behind it whose requests fit into the
+                // available permits. Those must get woken now.
+                self.wakeup_waiters();
             }
             PollState::New | PollState::Done => {}
         }
